@@ -32,9 +32,8 @@ def _known_with_proposed(pid):
 
 vlib.known_findings = _known_with_proposed
 
-# go test would rewrite otelcol/go.mod (the harness imports modules that are only indirect
-# requirements there); -modfile points it at a scratch copy, so /repo is never written.
-_MODFILE = os.path.join(vlib.VERIF, "work", "C20", "otelcol.mod")
+# (vlib.run_harness hands go test a private -modfile copy: the harness imports modules that are only
+# indirect requirements of otelcol/go.mod and must never make the go command rewrite /repo)
 
 
 class P(vlib.Prop):
@@ -48,8 +47,9 @@ class P(vlib.Prop):
     case_type = "(list ((nat * nat) * ((nat * nat) * list nat)) * bool) * (list (nat * nat) * (list (nat * bool) * (list (nat * (nat * (nat * nat))) * nat)))".replace("(nat * (nat * (nat * nat)))", "(nat * (nat * nat))")
     shard = 40
     harnesses = [
-        vlib.Harness("run", "otelcol", ".", {"zz_verif_c20_test.go": "C20/run_test.go"},
-                     "^TestVerifC20$", "otelcol", timeout=900, extra_args=["-modfile=" + _MODFILE]),
+        vlib.Harness("run", "otelcol", ".", {"zz_verif_c20_test.go": "C20/run_test.go",
+                                              "zz_verif_c20_race_test.go": "C20/race_test.go"},
+                     "^TestVerifC20(Race)?$", "otelcol", timeout=900),
     ]
     rule = ("each case is ONE HISTORY of a real otelcol.Collector built over a scripted confmap provider (generation g of the "
             "configuration = g-th Retrieve; the script decides per generation: resolves / validates / which factory fails / which "
@@ -62,7 +62,11 @@ class P(vlib.Prop):
             "returned. The select's choice among ready branches is read off the channels and recorded. Compared inside Coq: every "
             "label enabled in the model, GetState()/shutdownChan-closed after each label, the whole create/start/NotReady/shutdown/"
             "Retrieve/Close/provider-Shutdown log tagged with GetState() at each event, the class of Run's result. quick 400 "
-            "histories, thorough 6000. non-trivial = at least one Retrieve and more than two logged events; distinct = distinct terms.")
+            "histories, thorough 6000. non-trivial = at least one Retrieve and more than two logged events; distinct = distinct terms. "
+            "Second harness (race_test.go): 24000 race rounds (fresh collector, 2-8 goroutines released by a spin barrier call "
+            "Shutdown() at once; one model case per k: k x LShutCheck then k x LShutClose) and 160 free-running collectors "
+            "(gates open) hit by SIGHUPs and storms of concurrent Shutdown() at random instants until Run returns; direct oracle: "
+            "no panic, no blocked call, channel closed, Run returns, event-log oracle.")
     trusted_base = [
         "Coq 8.16.1 kernel + vm_compute (coqc); no axioms (Print Assumptions: closed under the global context)",
         "hand-written model coq/C20/Model.v of otelcol/collector.go (Run, setupConfigurationComponents, reloadConfiguration, "
@@ -81,9 +85,3 @@ class P(vlib.Prop):
         "service.Start (bring-up is one section) are not modelled",
         "real OS signal delivery (signal.Notify) is replaced by sends into signalsChannel",
     ]
-
-    def translate(self, ctx):
-        src = os.path.join(vlib.REPO, "otelcol")
-        os.makedirs(os.path.dirname(_MODFILE), exist_ok=True)
-        shutil.copyfile(os.path.join(src, "go.mod"), _MODFILE)
-        shutil.copyfile(os.path.join(src, "go.sum"), _MODFILE[:-4] + ".sum")
